@@ -106,6 +106,12 @@ CHECKS['C02'] = dict(
          'reported. Exploration; ortho-fused aromatics are a known finding.',
     note='Trusted: RDKit SMILES reading, Kekulisation, ring perception; PyYAML. The denotation table of DESIGN.md 3.3.',
     ref='DESIGN.md C02')
+CHECKS['C03'] = dict(
+    technique='Hypothesis molecule generators x RDKit-produced equivalent spellings (metamorphic), exhaustive atom permutations for small molecules, Mol objects vs SMILES',
+    text='For each shipped scheme, generated molecules are written in 8-30 equivalent spellings (renumbered, rooted, explicit-H, Kekule, Mol objects with/without H, renumbered Mol); all must give the same descriptors or '
+         'the same failure, and sampled estimates must agree; every atom permutation of small molecules is tried through Mol objects and SMILES. Exploration; ortho-fused aromatics are a known finding.',
+    note='Trusted: RDKit to produce equivalent spellings of one parsed molecule (re-read and compared by canonical SMILES).',
+    ref='DESIGN.md C03')
 NOT_YET = {}
 
 def main():
